@@ -88,7 +88,7 @@ def _maskify(self, inverse=False):
         else 0,
         data=data,
         closed=self.closed,
-    )
+    )._remove_redundant_step_points()
 
 
 def _mask_stairs(self, other, inverse):
